@@ -59,6 +59,54 @@ def three_d(eng, table, rows, cols, k=0):
     return index_obs(eng, world, part, tax, k, rax, cax, tag="p%d." % k)
 
 
+def valid_counts(eng, cols_kind="cat"):
+    """a weighted response carrying a mean with weighted AND unweighted valid counts: counts, bases and the unconditional
+    row share are all taken from the weighted valid counts"""
+    from .cellworld import CellWorld
+    rows = ("cat", "a", 2, {"missing_at": (1,)})
+    cols = ("cat", "b", 2, {"missing_at": (0,)}) if cols_kind == "cat" else ("mr", "b", 2, {})
+    w = CellWorld(eng, [rows, cols])
+    w.free_measure("mean", "x")
+    VW = w.free_measure("valid_count_weighted", "vw", lo=0)
+    w.free_measure("valid_count_unweighted", "vu", lo=0)
+    part = Cube(w.response()).partitions[0]
+    vr = w.valid(0)
+    out = []
+    if cols_kind == "cat":
+        vc = w.valid(1)
+        allc = range(w.shape[1])
+        tot = None
+        for i in vr:
+            for j in allc:
+                tot = VW[i, j] if tot is None else tot + VW[i, j]
+        for i in vr:
+            row = []
+            rowall = None
+            for j in allc:
+                rowall = VW[i, j] if rowall is None else rowall + VW[i, j]
+            for j in vc:
+                colbase = None
+                for ii in vr:
+                    colbase = VW[ii, j] if colbase is None else colbase + VW[ii, j]
+                row.append(C.div(C.div(VW[i, j], colbase), C.div(rowall, tot)) * 100)
+            out.append(row)
+    else:
+        for i in vr:
+            row = []
+            for j in range(2):
+                colbase = None
+                for ii in vr:
+                    colbase = VW[ii, j, 0] if colbase is None else colbase + VW[ii, j, 0]
+                rowall = VW[i, j, 0] + VW[i, j, 1] + VW[i, j, 2]
+                tot = None
+                for ii in vr:
+                    t = VW[ii, j, 0] + VW[ii, j, 1] + VW[ii, j, 2]
+                    tot = t if tot is None else tot + t
+                row.append(C.div(C.div(VW[i, j, 0], colbase), C.div(rowall, tot)) * 100)
+            out.append(row)
+    return [Obs("column_index (valid counts)", part.column_index, C.to_array(out))]
+
+
 def specs(tier):
     out = []
     M = "props.c16"
@@ -73,6 +121,8 @@ def specs(tier):
     add("mr x cat", "two_d", dict(rows=V("mr", "a", 2), cols=V("cat", "b", 2, (0,))))
     add("mr x mr", "two_d", dict(rows=V("mr", "a", 2), cols=V("mr", "b", 2)))
     add("cat+sub x cat+sub", "two_d", dict(rows=Vs("cat", "a", 2, (1,), sub=[1, 2]), cols=Vs("cat", "b", 2, (0,), sub=[1, 2])))
+    add("cat x cat with weighted and unweighted valid counts", "valid_counts", dict())
+    add("cat x mr with weighted and unweighted valid counts", "valid_counts", dict(cols_kind="mr"))
     add("cat x cat unweighted", "two_d", dict(rows=V("cat", "a", 2, (1,)), cols=V("cat", "b", 2, (0,)), weighted=False))
     for k in (0, 1):
         add("3d cat(missing middle) x cat x cat p%d" % k, "three_d", dict(table=V("cat", "t", 2, (1,)), rows=V("cat", "a", 2, (0,)), cols=V("cat", "b", 2, (2,)), k=k))
